@@ -178,6 +178,8 @@ type Conn struct {
 	EOFAt    time.Duration
 	OpenedAt time.Duration
 	Garbage  bool // inbound stream lost framing (length < 10)
+	Desynced bool // the library end had a Write fail: later bytes are not interpreted
+	rxTotal  int
 	lastTx   time.Duration
 	rxOff    int
 	txOff    int
@@ -264,8 +266,20 @@ func (p *Peer) Last() *Conn {
 
 // OnData implements simnet.RawEnd.
 func (c *Conn) OnData(l *simnet.Link, b []byte) {
-	if c.Garbage {
+	if c.Garbage || c.Desynced {
 		return
+	}
+	// bytes written after a failed Write call of the library end are not a frame stream (the
+	// failed call may have torn a frame and the library has declared the connection dead)
+	c.rxTotal += len(b)
+	if bo := l.ToPeer().BrokenOff; bo >= 0 && c.rxTotal > bo {
+		keep := len(b) - (c.rxTotal - bo)
+		if keep < 0 {
+			keep = 0
+		}
+		b = b[:keep]
+		c.Desynced = true
+		c.P.W.Probe("stream_ignored_after_failed_write")
 	}
 	c.buf = append(c.buf, b...)
 	for len(c.buf) >= 4 {
